@@ -161,6 +161,32 @@ pub fn build(t: &mut Tape) -> (Vec<String>, Vec<String>) {
         }
         start.push_str("    print(zpt0())\n    print(zpt1())\n");
     }
+    // a type that is mentioned only in a function's signature, and a call that relies on that annotation: the mismatching call
+    // (ids starting with "invalid:") is rejected in every order, the matching one accepted in every order
+    if t.chance(1, 3) {
+        let (decl, good, bad) = match t.below(3) {
+            0 => ("Zpshade :: enum\n    Zdark,\n    Zlight int,\nend", "Zpshade.Zdark", "3"),
+            1 => ("Zpshade :: blob {\n    zv: int,\n}", "Zpshade { zv: 1 }", "3"),
+            _ => ("Zpshade :: enum\n    Zdark,\n    Zlight int,\nend", "Zpshade.Zlight 2", "\"s\""),
+        };
+        let invalid = t.bool();
+        let how = t.below(3);
+        ids.push(format!("{}signature-only-type-{}", if invalid { "invalid:" } else { "" }, how));
+        items.push(decl.to_string());
+        match how {
+            0 => items.push("zpweight :: fn zs: Zpshade -> int do\n    1\nend".to_string()),
+            1 => items.push("zpweight :: fn zn: int, zs: Zpshade -> int do\n    zn\nend".to_string()),
+            _ => items.push("zpweight :: fn zs: [Zpshade] -> int do\n    1\nend".to_string()),
+        }
+        let arg = if invalid { bad } else { good };
+        let call = match how {
+            0 => format!("zpweight({})", arg),
+            1 => format!("zpweight(1, {})", arg),
+            _ => format!("zpweight([{}])", arg),
+        };
+        items.push(format!("zpuse :: fn -> int do\n    {}\nend", call));
+        start.push_str("    print(zpuse())\n");
+    }
     start.push_str("end");
     items.push(start);
     (items, ids)
